@@ -732,6 +732,30 @@ theorem C03_map_events (cfg : Cfg) (mesh : List Cell) (dx dy : Rat) (cells : Lis
     rw [hnil] at hc
     cases hc
 
+/-- **C03 (the mask is coverage)**: a kernel row in which every loaded cell holds 1 (the row `map` appends for the mask)
+    is NaN at pixel (i, j) *exactly* when no loaded cell contains the sample point — whatever the data rows hold, NaN
+    included, for every processing order and schedule. (Until fix 4c5ccfa the mask was `isnan` of the last *data* row: a NaN
+    value in a cell that contains the point masked the pixel in every layer.) -/
+theorem C03_mask_is_coverage (cfg : Cfg) (mesh : List Cell) (dx dy : Rat) (cells : List Cell) (nl l i j : Nat)
+    (h3 : cfg.ndim = 3) (hdx : cfg.dx = some dx) (hdy : cfg.dyEff = some dy) (hdz : cfg.dz = none)
+    (hr : cfg.radial = .sound) (ho : Ortho cfg.u cfg.v cfg.n) (hd : 3 ≤ cfg.diag * cfg.diag) (hd0 : 0 ≤ cfg.diag)
+    (hpx : 0 < dx) (hpy : 0 < dy) (hi : i < cfg.nx) (hj : j < cfg.ny) (hl : l < nl)
+    (hperm : cells.Perm (select cfg mesh)) (evs : List Ev)
+    (hev : evs.Perm ((cells.map (toK cfg)).flatMap (writes (flatGrid cfg (winOf dx dy dx)) nl)))
+    (hcov : ∀ c ∈ mesh, c.vals.getD l none = some 1) :
+    (exec (initMem (flatGrid cfg (winOf dx dy dx)) nl) evs).getD (flat (flatGrid cfg (winOf dx dy dx)) l 0 j i) none = none ↔
+      Spec.locate 3 mesh (Spec.sample cfg (winOf dx dy dx) 1 i j 0) = [] := by
+  have h := C03_map_events cfg mesh dx dy cells nl l i j h3 hdx hdy hdz hr ho hd hd0 hpx hpy hi hj hl hperm evs hev
+  simp only at h
+  constructor
+  · intro hnone
+    by_contra hne
+    obtain ⟨c, hc, hv⟩ := h.2 hne
+    have hm : c ∈ mesh := ((mem_locate mesh _ c).mp hc).1
+    rw [hnone, hcov c hm] at hv
+    cases hv
+  · exact h.1
+
 /-- **C03_map**: the serial kernel, cells in any order -/
 theorem C03_map (cfg : Cfg) (mesh : List Cell) (dx dy : Rat) (cells : List Cell) (nl l i j : Nat)
     (h3 : cfg.ndim = 3) (hdx : cfg.dx = some dx) (hdy : cfg.dyEff = some dy) (hdz : cfg.dz = none)
